@@ -815,6 +815,44 @@ where
     }
 }
 
+/// Verification hooks. Compiled only with the cargo feature `constriction_verif`; not part of
+/// the public API. They allow an external harness to enumerate all head values of a
+/// `ChainCoder` for exhaustive single-step checks.
+#[cfg(feature = "constriction_verif")]
+impl<Word, State, CompressedBackend, RemaindersBackend, const PRECISION: usize>
+    ChainCoder<Word, State, CompressedBackend, RemaindersBackend, PRECISION>
+where
+    Word: BitArray + Into<State>,
+    State: BitArray + AsPrimitive<Word>,
+{
+    #[doc(hidden)]
+    pub fn verif_from_raw_parts(
+        compressed: CompressedBackend,
+        remainders: RemaindersBackend,
+        compressed_head: Word::NonZero,
+        remainders_head: State,
+    ) -> Self {
+        Self {
+            compressed,
+            remainders,
+            heads: ChainCoderHeads {
+                compressed: compressed_head,
+                remainders: remainders_head,
+            },
+        }
+    }
+
+    #[doc(hidden)]
+    pub fn verif_into_raw_parts(self) -> (CompressedBackend, RemaindersBackend, Word, State) {
+        (
+            self.compressed,
+            self.remainders,
+            self.heads.compressed.get(),
+            self.heads.remainders,
+        )
+    }
+}
+
 impl<Word, State, CompressedBackend, RemaindersBackend, const PRECISION: usize> Code
     for ChainCoder<Word, State, CompressedBackend, RemaindersBackend, PRECISION>
 where
